@@ -359,6 +359,10 @@ func main() {
 		for i := 0; i < nq; i++ {
 			qinputs = append(qinputs, genQueue(rng))
 		}
+		qinputs = append(qinputs, rcorpus()...)
+		for i := 0; i < nq/2; i++ {
+			qinputs = append(qinputs, genReconciler(rng))
+		}
 		qinputs = append(qinputs, wcorpus()...)
 		for i := 0; i < nq/2; i++ {
 			qinputs = append(qinputs, genWrapper(rng))
@@ -423,7 +427,11 @@ func main() {
 	var twoKindsSample interface{}
 	for _, qin := range qinputs {
 		var r *qrun
-		if qin.Wrapper {
+		var rr *rrun
+		if qin.Reconciler {
+			rr = runReconciler(qin)
+			r = rr.qrun
+		} else if qin.Wrapper {
 			r = runWrapper(qin)
 		} else {
 			r = runQueue(qin)
@@ -431,7 +439,15 @@ func main() {
 		md := maxDur(qin)
 		nontrivial := len(r.runs) >= 2
 		res.Seen(fmt.Sprint(qin), nontrivial)
-		if qin.Wrapper {
+		if qin.Reconciler {
+			res.Count("reconciler queue with all producers")
+			for _, src := range qin.Sources {
+				res.Count("reconciler source=" + src)
+			}
+			if rr.bypassAt >= 0 {
+				res.Count("reconciler: a RequeueAfter retry happened")
+			}
+		} else if qin.Wrapper {
 			res.Count("wrapper (WorkQueue.New/Start/Add/process) kind=" + qin.Kind + fmt.Sprintf(" items=%d", qin.Items))
 			fails := 0
 			for _, e := range r.events {
@@ -459,7 +475,12 @@ func main() {
 			res.Count("queue stuck")
 		}
 		res.OracleChecks++
-		if qin.Wrapper {
+		if qin.Reconciler {
+			if k, what := roracle(rr); k != "" {
+				res.Count("oracle_fail_reconciler_" + k)
+				res.Fail(hx.Failure{Key: "C13/reconciler/" + k, What: what, Input: qin, Observed: map[string]interface{}{"requests(instant,full,step)": rr.requests, "released_to_worker_at": rr.readies, "reconciliations(item,start)": r.runs, "events": r.events}})
+			}
+		} else if qin.Wrapper {
 			if k, what := woracle(r, md); k != "" {
 				res.Count("oracle_fail_wrapper_" + k)
 				res.Fail(hx.Failure{Key: "C13/wrapper/" + qin.Kind + "/" + k, What: what, Input: qin, Observed: map[string]interface{}{"adds(item,instant)": r.adds, "callback_starts(item,instant)": r.runs, "events": r.events}})
